@@ -78,6 +78,12 @@ func VHAtomicValue() {
 		})
 	}
 	vAssert(vWait(), "no AtomicValue call blocks")
+	// the register's final content, read after quiescence, extends the history
+	fin := &linOp{kind: avLoad}
+	linBegin(fin)
+	fin.r = v.Load()
+	linEnd(fin)
+	ops = append(ops, fin)
 	lin := false
 	linPerms(ops, func(order []*linOp) { lin = vOr(lin, c18spec(order, has, init)) })
 	vAssert(lin, "AtomicValue: the calls are linearizable to an atomic register (empty reads as zero)")
